@@ -294,6 +294,12 @@ def check_cgls(ctx, rs, sc, CGLS):
                 continue
             ok, xi, ki, mod = r
             res[form] = (xi, ki)
+            if form == "mat" and mode == "converge" and shift >= 0:
+                # finite termination in exact arithmetic (not proved in Lean; validated on the model's exact run)
+                ft = ctx.extra_cov.setdefault("cg_exact_finite_termination", {"checked": 0, "k_le_n": 0, "gamma_zero": 0})
+                ft["checked"] += 1; ft["k_le_n"] += int(mod[0] <= n); ft["gamma_zero"] += int(mod[3][-1] == 0)
+                if mod[0] > n:
+                    ctx.note(f"exact CGLS needed {mod[0]} > n = {n} iterations at {desc}")
             # ---- oracle: shifted normal equations at the returned point
             oracle_cgls(ctx, key, desc, A, b, x0, shift, tol, maxit, xi, ki, mode)
         # the two operator forms of the implementation must give the identical result
